@@ -214,10 +214,10 @@ impl RoutingTable {
 
                 // Hearing about a peer again (e.g., in a `FIND_NODE` reply) says nothing about an
                 // open connection to it: only a disconnect may take `Connected` away, otherwise a
-                // connected peer becomes evictable from its k-bucket.
-                if !(entry.connection == ConnectionType::Connected
-                    && connection == ConnectionType::NotConnected)
-                {
+                // connected peer becomes evictable from its k-bucket. This holds for every
+                // connection type the peer is reported with (`CannotConnect` would make the
+                // connected peer replaceable just like `NotConnected`).
+                if entry.connection != ConnectionType::Connected {
                     entry.connection = connection;
                 }
             }
